@@ -938,6 +938,8 @@ GRANULES = [0, 1, 2, 47999, 48000, 2 ** 31 - 1, 2 ** 31, 2 ** 32, 2 ** 32 + 1, 2
 
 class OggFmt(Generic):
     comment = b""
+    foreign = False      # another logical stream starts before and ends after this one (the finders must skip its pages)
+
 
     def rand_field(self, rng, f):
         if f[0] == "granule":
@@ -948,9 +950,14 @@ class OggFmt(Generic):
         return GRANULES if n == "granule" else lat(bits, lo)
 
     def build(self, ctx, p):
-        return mbuild(ctx, self.name, *p[:-1])
+        return mbuild(ctx, getattr(self, "bname", self.name), *p[:-1])
 
     def wrap(self, b, p):
+        if self.foreign:
+            other = 0x7777
+            return (ogg_page([b"fishead\x00" + b"\x00" * 56], other, 0, 0, 2) + ogg_page([b], 0x1234, 0, 0, 2) +
+                    ogg_page([self.comment], 0x1234, 1, 0, 0) + ogg_page([b"\x00" * 7], 0x1234, 2, p[-1], 4) +
+                    ogg_page([b"\x00" * 5], other, 1, 2 ** 62 + 12345, 4))
         return ogg_file(b, self.comment, p[-1])
 
     def model_input(self, b, file, p):
@@ -1192,7 +1199,256 @@ class Eac3(RangedFmt):
         return {"codec": "ec-3", "sample_rate": rate, "bitrate": 8 * fs * rate // (blocks * 256), "channels": AC3_NFCHANS[acmod] + lfe}
 
 
+# ---- layout / legacy variants: harness-side writers around the extracted builders, code-side decoders shared ------------
+APE_OLD_EXTRA_HIGH_STRICT = False     # reported: MonkeysAudioInfo compares the compression level with 4, the format's "extra high" is 4000
+
+
+def id3v2(n):
+    return b"ID3\x04\x00\x00" + bytes([(n >> 21) & 127, (n >> 14) & 127, (n >> 7) & 127, n & 127]) + b"\x00" * n
+
+
+ID3_SIZES = [None, 0, 117, 300]
+
+
+class Mpc456(Mpc7):
+    """Musepack SV4-SV6: u32 LE (low 11 bits, stream version 10 bits at 11, 2 bits, bitrate 9 bits at 23), frame count u32 (SV5, SV6)
+    or u16 at 6 (SV4); SV4/SV5 count one frame more"""
+    name, mfmt, slug = "mpc456", "mpc", "musepack-sv4-6"
+    fields = [("version", 2, 0), ("bitrate", 9, 0), ("frames", 32, 2), ("low", 11, 0), ("mid", 2, 0), ("id3", 2, 0)]
+
+    def fix(self, p):
+        p = list(p)
+        p[0] = 4 + p[0] % 3
+        if p[0] == 4:
+            p[2] = max(2, p[2] % 65536)
+        return p
+
+    def build(self, ctx, p):
+        ver, br, frames, low, mid, id3 = p
+        dword = low | (ver << 11) | (mid << 21) | (br << 23)
+        cnt = struct.pack("<I", frames) if ver >= 5 else b"\xab\xcd" + struct.pack("<H", frames)
+        return struct.pack("<I", dword) + cnt + b"\x00" * 24
+
+    def wrap(self, b, p):
+        n = ID3_SIZES[p[5]]
+        return (b"" if n is None else id3v2(n)) + b + b"\x00" * 40
+
+    def spec(self, p, file):
+        ver, br, frames, low, mid, id3 = p
+        fr = frames - 1 if ver < 6 else frames
+        r = {"version": ver, "channels": 2, "sample_rate": 44100, "length": fdiv(fr * 1152 - 576, 44100)}
+        r["bitrate"] = br if br else int(round(len(file) * 8 / r["length"]))
+        return r
+
+
+class Mpc7L(Mpc7):
+    name, slug = "mpc7+id3", "musepack-sv7"
+    fields = Mpc7.fields + [("id3", 2, 0)]
+
+    def fix(self, p):
+        return Mpc7.fix(self, p[:-1]) + [p[-1]]
+
+    def build(self, ctx, p):
+        return Mpc7.build(self, ctx, p[:-1])
+
+    def wrap(self, b, p):
+        n = ID3_SIZES[p[-1]]
+        return (b"" if n is None else id3v2(n)) + b + b"\x00" * 40
+
+    def spec(self, p, file):
+        return Mpc7.spec(self, p[:-1], file)
+
+
+def mpc8_packets(b):
+    """the packets of an SV8 stream built by the model: [(key, whole packet bytes)]"""
+    assert b[:4] == b"MPCK"
+    pos, out = 4, []
+    while pos < len(b):
+        key = b[pos:pos + 2]
+        size, n, q = 0, 0, pos + 2
+        while True:
+            c = b[q]
+            size = (size << 7) | (c & 127)
+            q += 1
+            if not c & 128:
+                break
+        out.append((key, b[pos:pos + size]))
+        pos += size
+    return out
+
+
+class Mpc8L(Mpc8):
+    """SV8 with an ID3v2 tag in front, optional packets between SH and RG, RG in front of SH"""
+    name, slug = "mpc8+layout", "musepack-sv8"
+    fields = Mpc8.fields + [("layout", 3, 0)]
+
+    def fix(self, p):
+        return Mpc8.fix(self, p[:-1]) + [p[-1]]
+
+    def build(self, ctx, p):
+        b = mbuild(ctx, "mpc8", *p[:-1])
+        lay = p[-1]
+        pk = dict(mpc8_packets(b))
+        order = [pk[b"RG"], pk[b"SH"]] if lay & 4 else [pk[b"SH"], pk[b"RG"]]
+        if lay & 2:
+            order.insert(1, b"EI\x0a" + bytes(7))
+            order.insert(1, b"SO\x04" + bytes(1))
+        rest = b"".join(v for k, v in mpc8_packets(b) if k not in (b"SH", b"RG"))
+        return b"MPCK" + b"".join(order) + rest
+
+    def wrap(self, b, p):
+        return (id3v2(77) if p[-1] & 1 else b"") + b + b"\x00" * 16
+
+    def spec(self, p, file):
+        return Mpc8.spec(self, p[:-1], file)
+
+
+class WavPackWalk(WavPack):
+    """unknown total (2^32 - 1) and / or a first block that is not block 0: the duration is the sum of the block sample counts"""
+    name, slug = "wavpack+walk", "wavpack-block-walk"
+    fields = WavPack.fields + [("mode", 2, 0), ("nblocks", 2, 0), ("payload", 8, 0)]
+
+    def fix(self, p):
+        q = WavPack.fix(self, p[:12])
+        mode = p[12] % 3
+        if mode in (0, 2):
+            q[2] = 0xFFFFFFFF
+        if mode in (1, 2):
+            q[3] = 1
+        return q + [mode, p[13], p[14]]
+
+    def block_samples(self, p):
+        return [p[4]] + [(p[4] * (i + 3) + 7 * i) % 2 ** 32 for i in range(p[13])]
+
+    def build(self, ctx, p):
+        out = b""
+        for i, bs in enumerate(self.block_samples(p)):
+            pay = (p[14] * (i + 1)) % 97 if i else p[14]
+            q = list(p[:12])
+            q[0], q[4] = 24 + pay, bs
+            if i:
+                q[3] = 1
+            out += mbuild(ctx, "wavpack", *q) + b"\x5a" * pay
+        return out
+
+    def wrap(self, b, p):
+        return b + b"APETAGEX" + b"\x00" * 24
+
+    def spec(self, p, file):
+        r = WavPack.spec(self, p[:12], file)
+        r["length"] = fdiv(sum(self.block_samples(p)), r["sample_rate"])
+        return r
+
+
+class ApeOld(Ape):
+    """Monkey's Audio before 3.98 (APE_HEADER_OLD): 'MAC ', u16 version, u16 compression level, u16 format flags, u16 channels, u32 rate,
+    u32 header bytes, u32 terminating bytes, u32 total frames, u32 final frame blocks; blocks per frame by version / level"""
+    name, mfmt, slug = "ape-old", "ape", "ape-old-header"
+    fields = [("version", 12, 0), ("compression", 16, 0), ("flags", 16, 0), ("channels", 16, 0), ("rate", 32, 0), ("header_bytes", 32, 0),
+              ("terminating_bytes", 32, 0), ("frames", 32, 0), ("ffb", 32, 0), ("wavefmt", 1, 0), ("bits", 16, 0)]
+    VERSIONS = [0, 1, 3799, 3800, 3801, 3899, 3900, 3901, 3949, 3950, 3951, 3970, 3979]
+    LEVELS = [0, 4, 1000, 2000, 3000, 3999, 4000, 4001, 5000, 65535]
+
+    def field_lattice(self, n, bits, lo):
+        if n == "version":
+            return self.VERSIONS
+        if n == "compression":
+            return self.LEVELS
+        return lat(bits, lo)
+
+    def rand_field(self, rng, f):
+        if f[0] == "version":
+            return rng.choice(self.VERSIONS)
+        if f[0] == "compression":
+            return rng.choice(self.LEVELS)
+        return rnd(rng, f[1], f[2])
+
+    def params_lattice(self, rng):
+        for p in Generic.params_lattice(self, rng):
+            yield p
+        for v in self.VERSIONS:
+            for c in self.LEVELS:
+                p = self.params_random(rng)
+                p[0], p[1] = v, c
+                yield p
+
+    def fix(self, p):
+        p = list(p)
+        p[0] = min(p[0], 3979)
+        return p
+
+    def build(self, ctx, p):
+        ver, comp, flags, ch, rate, hb, tb, frames, ffb, wavefmt, bits = p
+        h = b"MAC " + struct.pack("<HHHHIIIII", ver, comp, flags, ch, rate, hb, tb, frames, ffb)
+        h += b"\x11" * 16
+        if wavefmt:
+            h += b"WAVEfmt \x10\x00\x00\x00\x01\x00" + struct.pack("<HIIH", ch, rate & 0xFFFFFFFF, 0, 4) + struct.pack("<H", bits)
+        else:
+            h += b"\x00" * 26 + struct.pack("<H", bits)
+        assert len(h) == 76, len(h)
+        return h
+
+    def spec(self, p, file):
+        ver, comp, flags, ch, rate, hb, tb, frames, ffb, wavefmt, bits = p
+        r = {"version": ver / 1000.0, "channels": ch, "sample_rate": rate, "bits_per_sample": bits if wavefmt else 0}
+        if 3800 <= ver < 3900 and comp in (4, 4000) and not APE_OLD_EXTRA_HIGH_STRICT:
+            return r
+        if ver >= 3950:
+            bpf = 73728 * 4
+        elif ver >= 3900 or (ver >= 3800 and comp == 4000):
+            bpf = 73728
+        else:
+            bpf = 9216
+        r["length"] = fdiv((frames - 1) * bpf + ffb, rate) if rate and frames > 0 else 0.0
+        return r
+
+
+class WaveNoData(Wave):
+    """no 'data' chunk: the duration is unknown (0.0)"""
+    name, slug = "wave+nodata", "wave-fmt"
+
+    def wrap(self, b, p):
+        fmt = b"fmt " + struct.pack("<I", len(b)) + b + (b"\x00" if len(b) % 2 else b"")
+        body = b"WAVE" + b"LIST" + struct.pack("<I", 4) + b"INFO" + fmt
+        return b"RIFF" + struct.pack("<I", len(body)) + body
+
+    def model_input(self, b, file, p):
+        return b, "-"
+
+    def spec(self, p, file):
+        fmt, ch, rate, br, al, bits, ds, ext = p
+        return {"audio_format": fmt, "channels": ch, "sample_rate": rate, "bits_per_sample": bits, "bitrate": ch * bits * rate, "length": 0.0}
+
+
+class FlacL(Flac):
+    """ID3v2 tag in front of 'fLaC'; STREAMINFO followed by further metadata blocks"""
+    name, slug = "flac+layout", "flac-streaminfo"
+    fields = Flac.fields + [("layout", 2, 0)]
+
+    def fix(self, p):
+        return Flac.fix(self, p[:-1]) + [p[-1]]
+
+    def build(self, ctx, p):
+        return mbuild(ctx, "flac", *p[:-1])
+
+    def wrap(self, b, p):
+        lay = p[-1]
+        pre = id3v2(261) if lay & 1 else b""
+        if lay & 2:
+            return pre + b"fLaC" + b"\x00\x00\x00\x22" + b + b"\x04\x00\x00\x08" + VC_EMPTY + b"\x81\x00\x00\x05" + b"\x00" * 5 + self.AUDIO
+        return pre + b"fLaC" + b"\x80\x00\x00\x22" + b + self.AUDIO
+
+    def spec(self, p, file):
+        return Flac.spec(self, p[:-1], file)
+
+
+def _foreign(cls):
+    return type(cls.__name__ + "Foreign", (cls,), {"name": cls.name + "+foreign", "bname": cls.name, "foreign": True})
+
+
 GENERIC = [Flac(), Wave(), Aiff(), Dsf(), Tta(), WavPack(), Ape(), Ofr(), Mpc7(), Mpc8(), Vorbis(), Opus(), Speex(), Theora(), OggFlac(), Ac3(), Eac3()]
+VARIANTS = [FlacL(), WaveNoData(), WavPackWalk(), ApeOld(), Mpc456(), Mpc7L(), Mpc8L()] + [_foreign(c)() for c in (Vorbis, Opus, Speex, Theora, OggFlac)]
+GENERIC += VARIANTS
 BYNAME = {f.name: f for f in GENERIC}
 
 
@@ -1418,6 +1674,19 @@ def adif_case(ctx, P, tag, cut=None):
     return True
 
 
+def adif_coq(P):
+    """the Gallina term of the parameter record (for the vm_compute cross-check)"""
+    cid, orig, home, bst, bitrate, full, pces, tail, id3 = P
+    zl = lambda l: "[" + "; ".join(str(x) for x in l) + "]"
+    o = lambda v: "None" if v is None else "(Some %d)" % v
+    ps = []
+    for tag, ot, sfi, front, side, back, lfe, assoc, cc, mono, stereo, matrix, comment in pces:
+        ps.append("mkPce %d %d %d %s %s %s %s %s %s %s %s %s %s" % (tag, ot, sfi, zl(front), zl(side), zl(back), zl(lfe), zl(assoc), zl(cc),
+                                                                   o(mono), o(stereo), o(matrix), zl(bytes.fromhex(comment))))
+    return "(mkAdif %s %d %d %d %d %d [%s])" % ("None" if cid is None else "(Some %s)" % zl(bytes.fromhex(cid)), orig, home, bst, bitrate, full,
+                                               "; ".join(ps))
+
+
 def json_key(x):
     if isinstance(x, list):
         return tuple(json_key(y) for y in x)
@@ -1550,6 +1819,53 @@ def _run_adif(ctx, n_random, adif_case):
             P[6][0][12] = "ab" * clen
             n = len(adif_ref_bytes(P))
             adif_case(ctx, P, "comment-past-end", cut=n - clen + tail)
+
+
+# ---- families with a direct oracle only (harness/c05_extra.py: ADTS, TAK, DSDIFF, MP4, ASF) ------------------------------
+def extra_case(ctx, F, p, tag):
+    data = F.build(p)
+    st, impl = run_impl(lambda: F.load(data))
+    ctx.oracle_cases += 1
+    ctx.count("%s:%s" % (F.name, tag))
+    slug = {"fmt": "x:" + F.name, "params": p}
+    ctx.case((F.name, json_key_any(p)), dict(slug, impl=impl if st == "raise" else {k: (v.hex() if isinstance(v, float) else v) for k, v in impl.items()})
+             if ctx.evaluations % 499 == 0 else None)
+    valid = F.valid(p)
+    if st != "ok":
+        if valid:
+            ctx.violation("oracle", "%s: valid header not loaded (%s)" % (F.name, impl), dict(slug, **{"class": F.slug + "-rejected"}))
+            return False
+        return True
+    spec = F.spec(p)
+    bad = cmp_dicts(impl, {k: v for k, v in spec.items() if not k.endswith("~")})
+    for k, (exact, rel, ab) in ((k[:-1], v) for k, v in spec.items() if k.endswith("~")):
+        got = impl.get(k)
+        if not isinstance(got, (int, float)) or isinstance(got, bool) or got != got or got in (float("inf"), float("-inf")) or \
+                abs(Fraction(got) - exact) > max(abs(exact) * rel, ab):
+            bad.append("%s: impl=%r exact=%s" % (k, got, exact))
+    if bad:
+        ctx.violation("oracle", "%s: reported attributes differ from the header: %s" % (F.name, ", ".join(sorted(b.split(":")[0] for b in bad))),
+                      dict(slug, **{"class": F.slug + "-mismatch", "detail": bad, "tag": tag}))
+        return False
+    return True
+
+
+def json_key_any(x):
+    if isinstance(x, (list, tuple)):
+        return tuple(json_key_any(y) for y in x)
+    if isinstance(x, dict):
+        return tuple(sorted((k, json_key_any(v)) for k, v in x.items()))
+    return x
+
+
+def run_extra(ctx, stop_after=4):
+    import c05_extra
+    for F in c05_extra.FAMILIES:
+        before = len(ctx.violations)
+        for tag, p in F.gen(ctx.rng, ctx.thorough):
+            extra_case(ctx, F, p, tag)
+            if len(ctx.violations) > before + stop_after:
+                break
 
 
 # ---- invalid headers ------------------------------------------------------------------------------
@@ -1733,12 +2049,21 @@ def sample_cases(ctx):
             plan.append((n, fm, data, cls, mi))
         elif ext in ("ac3", "eac3"):
             plan.append((n, "ac3", data, None, lambda data=data: ("ac3", data, None)))
+        elif ext == "aac":
+            plan.append((n, "adif", data, None, lambda data=data: ("adif", data, None)))
+            if data[:4] == b"ADIF":
+                # the same stream behind an ID3v2 tag (sizes around the 7-bit digit boundaries)
+                for k in (0, 1, 127, 128, 16384):
+                    plan.append(("%s+id3(%d)" % (n, k), "adif", id3_prefix(k) + data, None, lambda d2=id3_prefix(k) + data: ("adif", d2, None)))
         elif ext == "mp3":
             plan.append((n, "mpeg", data, None, None))
     for n, fm, data, cls, mi in plan:
         ctx.count("sample:" + fm)
         if fm == "mpeg":
             sample_mpeg(ctx, n, data)
+            continue
+        if fm == "adif":
+            sample_adif(ctx, n, data)
             continue
         F = BYNAME[fm]
         st, impl = run_impl(lambda: F.impl(data))
@@ -1773,6 +2098,27 @@ def sample_cases(ctx):
             bad = cmp_dicts(impl, ref)
             if bad:
                 ctx.disagree("c05.sample", "%s: impl vs model: %s" % (n, "; ".join(bad)), {"sample": n})
+
+
+def sample_adif(ctx, n, data):
+    st, impl = run_impl(lambda: aac_impl(data))
+    mst, mv = mdecode(ctx, "adif", data)
+    ctx.corr_cases += 1
+    if mst == "raise" and mv == "NotImplementedError":       # an ADTS stream: outside the ADIF model
+        ctx.case(None)
+        ctx.count("sample-skipped:adif")
+        return
+    ctx.case(("sample", n))
+    if st != mst or (st == "raise" and impl != mv):
+        ctx.disagree("c05.sample", "%s: impl %s %s, model %s %s" % (n, st, impl if st == "raise" else "", mst, mv), {"sample": n})
+    elif st == "ok":
+        md = dict(zip(["sample_rate", "channels", "bitrate", "ln", "ld"], mv))
+        ref = {k: md[k] for k in ("sample_rate", "channels", "bitrate")}
+        ref["length"] = fdiv(md["ln"], md["ld"]) if md["bitrate"] else 0
+        ref["type"] = "ADIF"
+        bad = cmp_dicts(impl, ref)
+        if bad:
+            ctx.disagree("c05.sample", "%s: impl vs model: %s" % (n, "; ".join(bad)), {"sample": n})
 
 
 def sample_mpeg(ctx, n, data):
@@ -1857,8 +2203,14 @@ def vm_crosscheck(ctx):
         p = F8.params_random(rng)
         cases.append("decode_mpc (build_mpc8 %s)" % " ".join(str(x) for x in p))
         keys.append(("mpc8", p))
+    adif_ps = []
+    for _ in range(8):
+        P = adif_rand(rng, id3=0, tail=rng.choice([0, 3, 20]))
+        adif_ps.append(P)
+        cases.append("decode_adif (build_adif %s (zeros %d))" % (adif_coq(P), P[7]))
+        keys.append(("adif", P))
     pre = ("From Coq Require Import ZArith List. Import ListNotations. Require Import Base.Py Model.InfoBase Model.InfoMpeg Model.InfoFlac "
-           "Model.InfoIff Model.InfoSimple Model.InfoMpc Model.InfoAc3. Open Scope Z_scope.")
+           "Model.InfoIff Model.InfoSimple Model.InfoMpc Model.InfoAc3 Model.InfoAac. Open Scope Z_scope.")
     res, log = vm_shard("c05", pre, cases)
     if res is None or len(res) != len(cases):
         ctx.disagree("c05.vm_shard", "vm_compute shard failed to run: %s" % (log,), {})
@@ -1866,7 +2218,7 @@ def vm_crosscheck(ctx):
     import re
     for (fm, p), r in zip(keys, res):
         ctx.vm_cases += 1
-        b = mbuild(ctx, fm, *p)
+        b = mbuild(ctx, fm, *(adif_args(p) if fm == "adif" else p))
         mst, mv = mdecode(ctx, {"mpc8": "mpc"}.get(fm, fm), b, None)
         m = re.match(r"Ok \[(.*)\]$", r.replace("%Z", "").strip())
         if m:
@@ -1921,6 +2273,7 @@ def run(ctx):
     run_vbr(ctx, 400 if ctx.thorough else 80)
     run_generic(ctx, 120 if ctx.thorough else 25)
     run_adif(ctx, 2000 if ctx.thorough else 300)
+    run_extra(ctx)
     F = BYNAME["flac"]
     for p in itertools.islice(F.params_lattice(ctx.rng), 0, None, 1 if ctx.thorough else 3):
         flac_write_case(ctx, p)
@@ -1935,6 +2288,7 @@ def search(ctx, broken):
     run_vbr(ctx, 600)
     run_generic(ctx, 300, stop_on_violation=True)
     run_adif(ctx, 3000)
+    run_extra(ctx)
     F = BYNAME["flac"]
     for p in F.params_lattice(ctx.rng):
         if not flac_write_case(ctx, p):
@@ -1950,6 +2304,9 @@ def replay(ctx, payload):
     fm = d["fmt"]
     if fm == "adif":
         return not adif_case(ctx, d["params"], "replay", cut=d.get("cut"))
+    if fm.startswith("x:"):
+        import c05_extra
+        return not extra_case(ctx, c05_extra.BYNAME[fm[2:]], d["params"], "replay")
     p = [int(x) for x in d["params"]]
     if fm == "mpeg":
         return not mpeg_case(ctx, Mpeg(), p, "replay")
